@@ -102,6 +102,9 @@ func parseRow(row string) ([]tak.Square, error) {
 	var out []tak.Square
 	bits := strings.Split(row, ",")
 	for _, bit := range bits {
+		if len(bit) == 0 {
+			return nil, fmt.Errorf("empty square in row: %q", row)
+		}
 		if bit[0] == 'x' {
 			count := 1
 			if len(bit) > 1 {
@@ -122,6 +125,9 @@ func parseRow(row string) ([]tak.Square, error) {
 			case 'C', 'S':
 				if i != len(bit)-1 {
 					return nil, fmt.Errorf("stone type not at end of stack: %s", bit)
+				}
+				if i == 0 {
+					return nil, fmt.Errorf("stone type without a stone: %s", bit)
 				}
 				stack = stack[1:]
 				color := stack[0].Color()
